@@ -401,6 +401,7 @@ class Path:
         from .models import util as _u
         _u.DOMAINS.clear()
         _u.RANGES.clear()
+        del _u.KEEP[:]
         self.trace = cfg.get('trace', False)
 
     # -- symbols -----------------------------------------------------------
